@@ -69,7 +69,7 @@ end generic
 section ring
 variable {R : Type} [CommRing R]
 
-theorem condOK_sound {o : Ops R} (ho : RingLike o) (env : Nat → R) {c c' : C} (h : condOK c c' = true) :
+theorem condOK_sound_w {o : Ops R} (ho : RingLike o) (env : Nat → R) {c c' : C} (h : condOK c c' = true) :
     c.eval o env = c'.eval o env := by
   induction c generalizing c' with
   | lt a b =>
@@ -218,7 +218,7 @@ theorem implied_sound {o : Ops K} (ho : OrderedEqLike o) (env : Nat → K) (orde
       cases h
       have hm := List.mem_of_find?_eq_some hf
       have hc := List.find?_some hf
-      rw [condOK_sound hr env hc]; exact hp cb hm
+      rw [condOK_sound_w hr env hc]; exact hp cb hm
     · split at h
       · exact impliedAtom_sound ho env (normPath_sound ho env hp) h
       · cases h
